@@ -20,7 +20,12 @@ Differential oracle over (trait configuration) x (value lattice):
 * value-held  (history) the same differential with the trait installed as an
             attribute that already holds a valid value, plus assignments judged
             against the compiled validator asked directly on the same state;
-* enum-foreign-equal  enumerations whose items equal values of other types.
+* enum-foreign-equal  enumerations whose items equal values of other types;
+* forward-ref (history) members that name their class by a string: the first
+            resolution of the name is made along a chosen route, then the same
+            differential on every user of the definition (the resolving object,
+            objects made before / after, instance-level clones, subclasses,
+            pickled copies) -- see `_c03_forwardref.py`.
 
 See DESIGN.md section 4 / C03.  The value lattice lives in `_c03_lattice.py`.
 """
@@ -36,7 +41,7 @@ import types
 from traits.api import (
     Any, Array, Bool, Bytes, Callable, CBool, CBytes, CComplex, CFloat, CInt, Complex, CStr, CTrait,
     AdaptsTo, Dict, Either, Enum, Float, Instance, Int, List, Map, Module, Range, Set, Str, Supports,
-    This, Trait, TraitError, Tuple, Undefined, Union,
+    This, Trait, TraitError, TraitInstance, Tuple, Type, Undefined, Union,
 )
 from traits.trait_handlers import TraitMap
 from traits.adaptation.api import (
@@ -46,6 +51,7 @@ from traits.adaptation.api import (
 
 from vf.util import same as _same, short
 from vf.monitors import _c03_lattice as LAT
+from vf.monitors import _c03_forwardref as FWD
 from vf.monitors._c03_lattice import lattice, BOUNDS
 
 def same(a, b):
@@ -88,7 +94,22 @@ META = {
              "CTrait.validate(obj, 'x', v) vs the Python method on that state, and a random walk of "
              "assignments obj.x = v judged against CTrait.validate on the same state (same decision, "
              "stored value of the same exact type and equal); value-held_same-type_* count the candidates "
-             "that have exactly the type of the value held. One oracle evaluation = one (configuration, value) pair judged by the C-vs-"
+             "that have exactly the type of the value held. Stratum forward-ref (history): specs whose "
+             "Instance / Supports / Type / legacy TraitInstance members name their class by a string (bare, "
+             "with module=, dotted, builtins, unresolvable; stand-alone, first / last / beside slow members "
+             "in Either and Trait(...), two by-name members, nested Either, Union, Tuple member, Tuple in "
+             "Either, List / Dict item) installed as class trait 'x'; the FIRST resolution of the name is "
+             "made along one of 9 routes (assignment on a pristine object; on an object carrying an "
+             "instance-level trait object made by on_trait_change / observe / add_trait of the same name / "
+             "_trait(name, 2); CTrait.validate; a subclass instance; a subclass that redefines the default; "
+             "an unpickled copy of the class trait) with a first value the named class accepts or one "
+             "nothing accepts; then the C-vs-Python differential, the compound / tuple laws and assignments "
+             "on the resolving object and on the other users of the definition: objects made before and "
+             "after the resolution, with and without an instance-level trait object, subclass instances, an "
+             "object carrying a copy pickled after the resolution (forward-ref_targets/*); "
+             "forward-ref_pairs/<relation> splits the pairs by whether the swept trait object is the one the "
+             "resolution ran through or a sibling sharing its handler, forward-ref_accepts_through_named_class "
+             "counts accepted values of the named class. One oracle evaluation = one (configuration, value) pair judged by the C-vs-"
              "Python differential, or by the compound / tuple law against the alternatives validated "
              "alone. distinct_nontrivial counts distinct (sub-check, trait kind, value class, "
              "C outcome, reference outcome) signatures; a pair is non-trivial when at least one side "
@@ -116,7 +137,19 @@ META = {
                   "value-held_pairs": 14000, "value-held_same-type_accepts": 1000,
                   "value-held_same-type_rejects": 550, "value-held_same-type_rejects/Instance": 12,
                   "value-held_assignments": 3000, "value-held_assign_accepts": 1200,
-                  "value-held_assign_rejects": 1600},
+                  "value-held_assign_rejects": 1600,
+                  "forward-ref_histories": 45, "forward-ref_resolved-on/class-trait": 15,
+                  "forward-ref_resolved-on/instance-clone": 20, "forward-ref_resolved-on/separate-copy": 6,
+                  "forward-ref_resolved-on/subclass-clone": 2,
+                  "forward-ref_descriptor_replaced_by_resolution": 20,
+                  "forward-ref_targets": 350, "forward-ref_targets/same-trait-object": 130,
+                  "forward-ref_targets/sibling-trait-object": 180,
+                  "forward-ref_targets/pickled-after-resolution": 45,
+                  "forward-ref_pairs": 40000, "forward-ref_pairs/sibling-trait-object": 20000,
+                  "forward-ref_agree-accept": 4500,
+                  "forward-ref_accepts_through_named_class": 750,
+                  "forward-ref_accepts_through_named_class/sibling-trait-object": 300,
+                  "forward-ref_assignments": 3200, "forward-ref_assign_accepts": 600},
         "thorough": {"evaluations": 1000000, "fast_descriptor_specs": 2500, "both_accept": 350000,
                      "both_reject": 650000, "compound_law_evaluations": 850000,
                      "compound_accept_via_nonfirst": 180000, "compound_accept_via_slow": 8000,
@@ -137,7 +170,19 @@ META = {
                      "value-held_pairs": 180000, "value-held_same-type_accepts": 5000,
                      "value-held_same-type_rejects": 2000, "value-held_same-type_rejects/Instance": 14,
                      "value-held_assignments": 37000, "value-held_assign_accepts": 12000,
-                     "value-held_assign_rejects": 25000},
+                     "value-held_assign_rejects": 25000,
+                     "forward-ref_histories": 400, "forward-ref_resolved-on/class-trait": 130,
+                     "forward-ref_resolved-on/instance-clone": 180, "forward-ref_resolved-on/separate-copy": 60,
+                     "forward-ref_resolved-on/subclass-clone": 25,
+                     "forward-ref_descriptor_replaced_by_resolution": 200,
+                     "forward-ref_targets": 3200, "forward-ref_targets/same-trait-object": 1100,
+                     "forward-ref_targets/sibling-trait-object": 1600,
+                     "forward-ref_targets/pickled-after-resolution": 400,
+                     "forward-ref_pairs": 500000, "forward-ref_pairs/sibling-trait-object": 200000,
+                     "forward-ref_agree-accept": 60000,
+                     "forward-ref_accepts_through_named_class": 6000,
+                     "forward-ref_accepts_through_named_class/sibling-trait-object": 2500,
+                     "forward-ref_assignments": 120000, "forward-ref_assign_accepts": 15000},
     },
     "assumptions": [
         "the handler's Python `validate` method is the specification of the fast path (the "
@@ -161,7 +206,12 @@ META = {
                       "unless the original trait shows the same disagreement; held:* (the configuration is "
                       "an attribute of an object that holds a valid value of a chosen exact type; sweep and "
                       "assignments on that state), suffix @value-held unless the stateless pair shows the "
-                      "same disagreement; assignments carry the sub-check assign@value-held",
+                      "same disagreement; assignments carry the sub-check assign@value-held; "
+                      "fwd:* (class named by a string, first resolution along a route, sweep on every user of "
+                      "the definition), keys forward-ref/<skeleton of the spec>/resolved-on-<class-trait|"
+                      "instance-clone|subclass-clone|separate-copy>/<same|sibling>-trait-object[.pickled]/"
+                      "<outcome> unless the same spec naming the class object shows the same disagreement "
+                      "statelessly",
     "exhaustive_parts": "every catalogue configuration and every fixed compound is run against "
                         "every lattice value (no sampling inside a configuration)",
 }
@@ -198,7 +248,7 @@ CLASSES = {
     "I": LAT.I, "T": LAT.T, "Sized": collections.abc.Sized, "Real": numbers.Real,
     "Holder": LAT.Holder, "object": object, "bytes": bytes,
     # classes whose isinstance() verdict is individual (not a function of type(value))
-    "Labelled": LAT.Labelled, "Open": LAT.Open,
+    "Labelled": LAT.Labelled, "Open": LAT.Open, "Z": LAT.Z,
 }
 PYTYPES = {"int": int, "float": float, "complex": complex, "str": str, "bool": bool,
            "bytes": bytes, "tuple": tuple, "list": list}
@@ -333,6 +383,14 @@ def mk(spec):
         return Array()
     if k == "Union":
         return Union(*[None if m == ("None",) else mk(m) for m in spec[1:]])
+    if k in FWD.REF_KINDS:     # members naming their class by a string (stratum forward-ref)
+        return FWD.mk_ref(spec)
+    if k == "Type":
+        return Type(None, CLASSES[spec[1]], allow_none=spec[2])
+    if k == "TraitInstance":
+        return TraitInstance(CLASSES[spec[1]], allow_none=spec[2])
+    if k == "TraitOf":         # a bare legacy handler turned into a trait
+        return Trait(mk(spec[1]))
     raise AssertionError(spec)
 
 
@@ -598,21 +656,23 @@ class Checker(object):
         self.dry = None        # set collecting keys while a baseline pair is evaluated
         self.base_obj = self.obj   # the stateless holder (no attribute 'x')
         self.held_type = None  # value-held stratum: exact type of the value the attribute holds
+        self.fwd = None        # forward-ref stratum: dict(form, where, relation, ...) of the target swept
+        self.assign_prefix = "value-held"
 
     def baseline_keys(self, vid, cls, v):
         """Keys the same pair yields on the original trait (copy stratum): a
         disagreement the original shows too is not caused by the copy."""
         keys = self.twin_cache.get(vid)
         if keys is None:
-            saved = (self.ctx, self.keytag, self.twin, self.hot, self.obj, self.held_type)
+            saved = (self.ctx, self.keytag, self.twin, self.hot, self.obj, self.held_type, self.fwd)
             self.ctx, self.keytag, self.twin, self.hot = _NULL, "", None, None
-            self.obj, self.held_type = self.base_obj, None
+            self.obj, self.held_type, self.fwd = self.base_obj, None, None
             self.dry = set()
             try:
                 self.pair(saved[2], vid, cls, v)
             finally:
                 keys, self.dry = self.dry, None
-                self.ctx, self.keytag, self.twin, self.hot, self.obj, self.held_type = saved
+                self.ctx, self.keytag, self.twin, self.hot, self.obj, self.held_type, self.fwd = saved
             self.twin_cache[vid] = keys
         return keys
 
@@ -623,6 +683,21 @@ class Checker(object):
         tag = self.keytag
         if tag and self.twin is not None and key in self.baseline_keys(vid, cls, v):
             self.ctx.count("%s_echo_of_stateless_disagreement" % tag.split(":")[0])
+            tag = ""
+        if tag and self.fwd is not None:
+            # forward-ref stratum: the mechanism is named by the skeleton of the spec, where
+            # the first resolution ran and how the swept trait object relates to that one;
+            # the trait kind / value class of the generic keys play no role in it
+            parts = key.split("/")
+            tail = "/".join(parts[3:]) or parts[-1]
+            if parts[0] != "diff":
+                tail = parts[0] + ":" + tail
+            f = self.fwd
+            key = "forward-ref/%s/resolved-on-%s/%s/%s" % (f["form"], f["where"], f["relation"], tail)
+            extra = dict(extra or {}, route=f["route"], first_value=f["trigger"], swept_object=f["target"],
+                         resolved_on=f["where"], swept_trait_object=f["relation"])
+            self.ctx.count("forward-ref_disagreements")
+            self.ctx.count("forward-ref_disagreements/%s/%s" % (f["where"], f["relation"]))
             tag = ""
         if tag:
             sub, rest = key.split("/", 1)
@@ -643,9 +718,23 @@ class Checker(object):
         ctx.ev()
         ctx.count("c_validations")
         law_violated = False
-        if b.alts is not None:
+        p = None
+        laws = True
+        if self.fwd is not None and b.has_py:
+            # forward-ref stratum: the C-vs-Python verdict comes first; a trait object left
+            # behind by the resolution disagrees with everything, which is reported once
+            p = outcome(b.pyv, obj, v)
+            verdict = classify(c, p)
+            ctx.count("forward-ref_pairs")
+            ctx.count("forward-ref_pairs/" + self.fwd["relation"])
+            ctx.count("forward-ref_" + verdict)
+            if verdict == "agree-accept" and self.fwd["reaches"](v):
+                ctx.count("forward-ref_accepts_through_named_class")
+                ctx.count("forward-ref_accepts_through_named_class/" + self.fwd["relation"])
+            laws = verdict not in ("diff", "result")
+        if b.alts is not None and laws:
             law_violated = self.compound_law(b, vid, cls, v, c)
-        if b.members is not None:
+        if b.members is not None and laws:
             self.tuple_law(b, vid, cls, v, c)
         nontrivial = c[0] != "TE"
         if b.enum_items is not None:
@@ -658,7 +747,8 @@ class Checker(object):
             ctx.count("value-held_same-type_%s/%s" % (how, b.spec[0]))
             nontrivial = True
         if b.has_py:
-            p = outcome(b.pyv, obj, v)
+            if p is None:
+                p = outcome(b.pyv, obj, v)
             ctx.count("ref_comparisons" if b.py_ref else "py_comparisons")
             if p[0] != "TE":
                 nontrivial = True
@@ -714,19 +804,19 @@ class Checker(object):
         except Exception as e:  # noqa: BLE001 - classification of the outcome
             cs = ("exc", type(e).__name__)
         ctx.ev()
-        ctx.count("value-held_assignments")
+        ctx.count(self.assign_prefix + "_assignments")
         if cs[0] == "ok":
             self.held_type = type(obj.__dict__.get("x", cs[1]))
         if cv[0] == "ok" and cs[0] == "ok":
             if type(cv[1]) is type(cs[1]) and same(cv[1], cs[1]):
-                ctx.count("value-held_assign_accepts")
+                ctx.count(self.assign_prefix + "_assign_accepts")
                 ctx.sig("assign", b.kind, fineclass(v), "accept", tclass(cs[1]))
                 return
             key = "assign/%s/%s/stored=%s,validate=%s" % (b.kind, cls, tclass(cs[1]), tclass(cv[1]))
             if type(cv[1]) is type(cs[1]):
                 key += "/value-differs"
         elif cv[0] == cs[0] and (cv[0] == "TE" or cv[1] == cs[1]):
-            ctx.count("value-held_assign_rejects")
+            ctx.count(self.assign_prefix + "_assign_rejects")
             ctx.sig("assign", b.kind, fineclass(v), oname(cs))
             return
         else:
@@ -1625,6 +1715,141 @@ def held_case(ctx, ck, i, spec, how, nheld, nassign, values):
         ctx.end()
 
 
+# --------------------------------------------------------------------------
+# forward-ref stratum: Instance / Supports / Type / TraitInstance members given by
+# class NAME.  The class trait is defined, some objects exist, the FIRST resolution
+# of the name happens along a chosen route, and then the differential sweep is made
+# on the resolving object and on the other objects of the class (made before and
+# after the resolution, with and without instance-level trait objects, of subclasses,
+# carrying an unpickled copy).  See _c03_forwardref.py.
+def _reaches(wrap, tokens):
+    """Predicate: does this value carry, where the by-name member sits, a value of
+    (one of) the named class(es)?"""
+    insts = tuple(getattr(LAT, t.split(":")[1]) for t in tokens if t.startswith("inst:"))
+    clss = tuple(getattr(LAT, t.split(":")[1]) for t in tokens if t.startswith("cls:"))
+    ints = any(t.startswith("int:") for t in tokens)
+
+    def reaches(v):
+        try:
+            if wrap == "tuple2":
+                if type(v) is not tuple or len(v) != 2:
+                    return False
+                v = v[1]
+            elif wrap == "list":
+                if type(v) is not list or len(v) != 1:
+                    return False
+                v = v[0]
+            elif wrap == "dict":
+                if type(v) is not dict or len(v) != 1:
+                    return False
+                v = next(iter(v.values()))
+            if insts and type(v) in insts:
+                return True
+            if clss and isinstance(v, type) and issubclass(v, clss):
+                return True
+            return ints and type(v) is int
+        except Exception:
+            return False
+    return reaches
+
+
+def forward_ref_case(ctx, ck, i, entry, route, first, values, subset, nder, nassign):
+    """values: swept on the resolving object and on an object made after the resolution;
+    subset (one value per lattice class plus the classes the named classes live in): swept
+    on the other users of the definition."""
+    spec, wrap, tokens = entry
+    case_id = "fwd:%d:%s:%s" % (i, route, first)
+    if not ctx.begin(case_id, {"spec": spec, "route": route, "first_value": first}):
+        return
+    try:
+        try:
+            scene = FWD.Scene(mk(spec))
+            got = scene.resolver_for(route)
+        except Exception as e:  # noqa: BLE001 - counted; the gates notice a stratum that never runs
+            ctx.count("forward-ref_unbuildable")
+            ctx.note("forward-ref_unbuildable_example", "%r %s: %s: %s" % (spec, route, type(e).__name__, e))
+            return
+        if got is None:
+            ctx.count("forward-ref_route_not_applicable")
+            return
+        form = FWD.form_of(spec)
+        tw = FWD.resolved_twin(spec)
+        twin = None
+        if tw is not None:
+            try:
+                twin = Built(tw, None)
+            except Exception:
+                twin = None
+        rng = ctx.rng("fwd", i, route, first)
+        stranger = FWD.wrap_value(wrap, FWD.Stranger())
+        accepted = [FWD.wrap_value(wrap, FWD.token_value(t)) for t in tokens]
+        # the first value that reaches the by-name member(s): one the named class accepts, or
+        # one nothing accepts; the stranger afterwards makes every remaining name resolve too
+        firsts = ([accepted[rng.randrange(len(accepted))]] if first == "accepted" else []) + [stranger]
+        obj, op = got
+        scene.resolver = obj
+        before = descriptor_of(obj.trait("x"))
+        through = scene.resolve(route, obj, op, firsts)
+        ctx.count("forward-ref_histories")
+        ctx.count("forward-ref_histories/" + route)
+        ctx.count("forward-ref_histories/first-value-" + first)
+        ctx.count("forward-ref_resolved-on/" + scene.events[-1][1])
+        if descriptor_of(through) != before:
+            ctx.count("forward-ref_descriptor_replaced_by_resolution")
+        if not scene.has_event_for(scene.class_trait):
+            # the route ran through a copy with a handler of its own (unpickled; a subclass
+            # redefining the default of a TraitType): the definition itself is resolved next, plainly
+            o2, op2 = scene.resolver_for("assign-pristine")
+            scene.resolve("assign-pristine", o2, op2, firsts)
+            ctx.count("forward-ref_histories_resolving_a_separate_copy_first")
+        ctx.count("specs")
+        ck.keytag, ck.twin, ck.twin_cache, ck.assign_prefix = "forward-ref", twin, {}, "forward-ref"
+        reaches = _reaches(wrap, tokens)
+        extras = FWD.extra_values(wrap, ck.values, ctx.scale(2, 6))
+        for tname, target, copied_from in scene.targets():
+            ct = target.trait("x")
+            if copied_from is None and not scene.has_event_for(ct):
+                # this object uses a copy with a handler of its own that nothing has resolved
+                # yet: it is resolved here, through the object itself
+                scene.resolve("late", target, lambda v, o=target: setattr(o, "x", v), firsts)
+                ctx.count("forward-ref_late_resolutions_of_separate_copies")
+            try:
+                b = Built(spec, None, ct=ct)
+            except Exception:
+                ctx.count("forward-ref_unbuildable")
+                continue
+            where, relation = scene.relation(ct, copied_from)
+            ck.obj, ck.held_type = target, None
+            ck.fwd = {"form": form, "where": where, "relation": relation, "route": route,
+                      "trigger": first, "target": tname, "reaches": reaches}
+            ctx.count("forward-ref_targets")
+            ctx.count("forward-ref_targets/" + tname)
+            ctx.count("forward-ref_targets/" + relation)
+            ctx.count("forward-ref_targets_" + ("fast" if b.fast else "slow"))
+            sweep = list(values if tname in ("resolver", "created-after") else subset) + extras
+            sweep += [("accepted:%s" % t, "named-class", FWD.wrap_value(wrap, FWD.token_value(t))) for t in tokens]
+            n = 0
+            for vid, cls, v in sweep:
+                if b.skip_bigidx and vid in ck.bigidx:
+                    continue
+                ck.pair(b, vid, cls, v)
+                n += 1
+            for vid, cls, v in ck.derived(b, rng, nder):
+                ck.pair(b, vid, cls, v)
+                n += 1
+            ctx.count("pairs", n)
+            # assignments: what the named class accepts, then a random walk
+            walk = sweep[len(sweep) - len(tokens):] + rng.sample(sweep, min(nassign, len(sweep)))
+            for vid, cls, v in walk:
+                if v is Undefined:
+                    continue
+                ck.assign(b, vid, cls, v)
+    finally:
+        ck.obj, ck.keytag, ck.twin, ck.twin_cache = ck.base_obj, "", None, {}
+        ck.fwd, ck.assign_prefix, ck.held_type = None, "value-held", None
+        ctx.end()
+
+
 def setup_adaptation():
     mgr = AdaptationManager()
     mgr.register_factory(LAT.XAdapter, LAT.Src, LAT.X)
@@ -1704,6 +1929,30 @@ def run(ctx):
             continue
         held_case(ctx, ck, i, spec, ("class", "instance")[i % 2], ctx.scale(2, 8), ctx.scale(10, 60),
                   reps if ctx.quick else None)
+    # ---- forward-ref stratum (own keys: forward-ref/<skeleton>/resolved-on-<where>/<relation>/...) ----
+    fcat = FWD.catalogue()
+    fsub, per = [], {}
+    for e in ck.values:
+        if e[0] in reps:
+            fsub.append(e)
+        elif e[1] in FWD.RELEVANT and per.get(e[1], 0) < 2:
+            per[e[1]] = per.get(e[1], 0) + 1
+            fsub.append(e)
+    fvals = ck.values if full else fsub
+    nroutes = len(FWD.ROUTES)
+    k = 0
+    for i, entry in enumerate(fcat):
+        for j, route in enumerate(FWD.ROUTES):
+            for f, first in enumerate(("accepted", "refused")):
+                k += 1
+                # quick: two routes per spec, one per kind of first value; which ones rotates
+                # with the spec and the seed (thorough: every spec x route x first value)
+                if ctx.quick and (i + j + ctx.seed + 4 * f) % nroutes:
+                    continue
+                if not ctx.mine(k + 4):
+                    continue
+                forward_ref_case(ctx, ck, i, entry, route, first, fvals, fsub, ctx.scale(6, 24),
+                                 ctx.scale(8, 40))
     # ---- copy stratum (own keys: sub-check@copied:<how>/...) ---------------------------
     cat = [sp for sp, _ in atomic_specs(False)] + fixed_compounds() + nested_mixed_compounds()
     for i, spec in enumerate(cat):
